@@ -205,6 +205,9 @@ def parse_mir(text):
     while i < n:
         line = lines[i]
         is_const = False
+        am = re.match(r"^(alloc\d+) \(static: ([^,]+),", line)
+        if am:
+            funcs.setdefault("#allocs", {})[am.group(1)] = am.group(2)
         cm = re.match(r"^(?:const|static(?: mut)?) (.*) = \{$", line)
         if cm:
             body = cm.group(1)
